@@ -37,6 +37,8 @@ def make_pair(n, spec, massl, basis, nullpat, seed):
     mm = 1.0 + 0.5 * np.cos(np.arange(n))
     if massl == 'scaled':
         mm = mm * 7.3
+    if massl == 'tiny':            # small mass scale (e.g. tonne-mm units): column sums of M below 1e-8
+        mm = mm * 1.0e-11
     d = om ** 2 * mm
     if basis == 'diag':
         Q = np.eye(n)
@@ -70,20 +72,20 @@ def cases(tier, seed):
     out = []
     sizes = [6, 9, 12, 30, 60] + ([120, 399] if tier == 'thorough' else [])
     for n, spec, massl, basis, nullpat, num, sparse, sort in itertools.product(
-            sizes, ['separated', 'close', 'repeated', 'decades'], ['spd', 'scaled'], ['diag', 'rotations', 'generic'],
+            sizes, ['separated', 'close', 'repeated', 'decades'], ['spd', 'scaled', 'tiny'], ['diag', 'rotations', 'generic'],
             ['none', 'first3', 'last3', 'fourth'], [1, 3, 5, 25], [1, 0], [1, 0]):
         if num > n - 2:
             continue
         if tier == 'quick':
-            if massl == 'scaled' and (basis != 'generic' or nullpat != 'none'):
+            if massl in ('scaled', 'tiny') and (basis != 'generic' or nullpat not in ('none', 'fourth')):
                 continue
             if basis == 'rotations' and nullpat != 'none':
                 continue
             if n in (9, 60) and (spec not in ('separated', 'close') or nullpat not in ('none', 'fourth')):
                 continue
         out.append(dict(kind='pair', n=n, spec=spec, mass=massl, basis=basis, null=nullpat, num=num, sparse=sparse, sort=sort, seed=seed))
-    for struct, sparse, num in itertools.product(['plate', 'cpanel', 'plate_reduced', 'assembly', 'bay'], [1, 0], [2, 5]):
-        out.append(dict(kind='struct', struct=struct, sparse=sparse, num=num, seed=seed))
+    for struct, sparse, num, mscale in itertools.product(['plate', 'cpanel', 'plate_reduced', 'assembly', 'bay'], [1, 0], [2, 5], [1.0, 1.0e-9]):
+        out.append(dict(kind='struct', struct=struct, sparse=sparse, num=num, mscale=mscale, seed=seed))
     return out
 
 
@@ -192,6 +194,8 @@ def check_struct(case):
         from .c13 import mk_bay
         spb = mk_bay(0, [1], ['b2d_f'], seed)
         K, M = spb.calc_k0(silent=True), spb.calc_kM(silent=True)
+    if case.get('mscale', 1.0) != 1.0:        # consistent change of units: mass and stiffness scaled together keep the frequencies
+        K, M = K * case['mscale'], M * case['mscale']
     Kd, Md = pan.dense(K), pan.dense(M)
     act = np.where(np.abs(Md).sum(axis=0) != 0)[0]
     ex = np.sqrt(np.abs(eigh(Kd[np.ix_(act, act)], Md[np.ix_(act, act)], eigvals_only=True)))
@@ -201,7 +205,7 @@ def check_struct(case):
                           reduced_dof=(st == 'plate_reduced' and not case['sparse']))
         if st != 'plate_reduced' or case['sparse']:
             judge(Kd, Md, vals, vecs, act, fails, dict(ctx, api='analysis.freq'), exact=ex, num=case['num'])
-        if panel is not None and st != 'plate_reduced':
+        if panel is not None and st != 'plate_reduced' and case.get('mscale', 1.0) == 1.0:
             panel.freq(silent=True, sparse_solver=bool(case['sparse']))
             judge(Kd, Md, panel.eigvals, panel.eigvecs, act, fails, dict(ctx, api='Panel.freq'), exact=ex, num=case['num'])
     except Exception as e:
